@@ -239,6 +239,14 @@ def gen_metric_records(rng, metrics, n_random, exhaustive, dims=(1, 2, 3)):
                     dt = rng.choice([np.float32, np.float64, np.int64, np.uint32]) if scale < 7919 else rng.choice([np.float64, np.int64])
                 elif scale > 1:
                     dt = rng.choice([np.int32, np.int64, np.uint32, np.uint64])
+            elif style < 0.4:
+                # large NEIGHBOURING ids (class * 100000 + instance, ids around 2^24 and 2^31): selection is by
+                # equality of the label, whatever its magnitude
+                off = rng.choice([100000, 1000000, 2**24 - 2, 2**31 - 4, 2**31 + 1])
+                pred, ref = np.where(pred > 0, pred.astype(np.int64) + off, 0), np.where(ref > 0, ref.astype(np.int64) + off, 0)
+                rl = [x + off for x in rl]
+                pl = [x + off for x in pl]
+                dt = rng.choice([np.int64, np.uint32, np.uint64, np.float64] if off < 2**31 - 200 else [np.int64, np.uint64, np.float64])
             ri = rng.choice(rl)
             k = rng.choice([1, 1, 2, 3]) if style >= 0.25 else rng.randint(12, len(pl))
             pis = rng.sample(pl, min(k, len(pl)))
